@@ -21,7 +21,7 @@ LEVEL_TEXT = ('PARTIAL. Decided statically, for every shipped family and all val
               'table-driven optima over every row of the shipped tables; table shapes match the NUM_* constants and '
               'the index expressions used; a shipped Calculate returns a point-independent penalty only strictly '
               'outside a bound (closed declared box); nothing outside the problem classes writes into bound vectors, '
-              'names or the known optimum. Metadata objects are allocated per construction. NOT decided: optimum-in-box for generated GKLS points, and the agreement '
+              'names or the known optimum. Metadata objects are allocated per construction; the boundary members of a table-driven family are constructed as themselves. NOT decided: optimum-in-box for generated GKLS points, and the agreement '
               'of the min/max/Lipschitz tables with the functions (numerical).')
 EXPLANATION = ('Path summaries of each constructor are replayed into abstract arrays; lengths are compared as '
                'expressions in the constructor argument, fills as exact constants; literal tables are read from the '
